@@ -330,9 +330,38 @@ Qed.
 Lemma help_candidate_valid : valid_tok HELP_CANDIDATE.
 Proof. exists (map (fun b => [b]) HELP_CANDIDATE). split; [|vm_compute; reflexivity]. vm_compute. repeat constructor. Qed.
 
-Theorem autocompletion_spec cp e i cs0 : Rep cp e i -> Forall valid_tok (cs_names cs0) ->
+(* the shape of a completion: nothing changes, or trailing blanks after the cursor are dropped, characters taken from a name (and
+   possibly one blank) are appended, and the cursor goes to the end *)
+Definition TabShape (names : list (list N)) (i i' : ideal) : Prop :=
+  i' = i \/ exists tcs R A, chars i = tcs ++ repeat [32] R /\ chars i' = tcs ++ A /\ icur i' = length (chars i') /\ (icur i <= length tcs)%nat
+     /\ Forall (fun c => c = [32] \/ exists n, In n names /\ incl c n) A.
+
+Lemma all_eq_repeat {A} (x : A) l : Forall (fun c => c = x) l -> l = repeat x (length l).
+Proof. induction 1 as [|c l Hc _ IH]; [reflexivity|]. subst c. cbn. rewrite <- IH. reflexivity. Qed.
+Lemma trail_split cs R : (R <= trail_sp cs)%nat -> skipn (length cs - R) cs = repeat [32] R.
+Proof.
+  intros Hk. unfold trail_sp in Hk.
+  assert (Hkl : (R <= length cs)%nat) by (pose proof (lead_sp_le (rev cs)); rewrite rev_length in *; lia).
+  assert (Tl : skipn (length cs - R) cs = rev (firstn R (rev cs))) by (rewrite firstn_rev, rev_involutive; reflexivity).
+  rewrite Tl. pose proof (lead_sp_all_sp (rev cs) R Hk) as Hs. apply Forall_rev in Hs. rewrite (all_eq_repeat _ _ Hs).
+  rewrite rev_length, firstn_length, rev_length. f_equal. lia.
+Qed.
+Lemma lcp_all_prefix x r : exists k, lcp_all (x :: r) = firstn k x.
+Proof.
+  cbn [lcp_all]. revert x. induction r as [|y r IH]; intros x; cbn [fold_left]; [exists (length x); rewrite firstn_all; reflexivity|].
+  destruct (lcp2_prefix_l x y) as [k ->]. destruct (IH (firstn k x)) as [k2 ->]. exists (Nat.min k2 k). apply firstn_firstn.
+Qed.
+Lemma incl_concat_in {A} (c : list A) l : In c l -> incl c (concat l).
+Proof. intros H b Hb. apply in_concat. eauto. Qed.
+Lemma incl_skipn {A} k (l : list A) : incl (skipn k l) l.
+Proof. intros b Hb. rewrite <- (firstn_skipn k l). apply in_or_app. right. exact Hb. Qed.
+Lemma In_firstn {A} k (l : list A) x : In x (firstn k l) -> In x l.
+Proof. intros H. rewrite <- (firstn_skipn k l). apply in_or_app. left. exact H. Qed.
+
+Theorem autocompletion_spec_shape cp e i cs0 : Rep cp e i -> Forall valid_tok (cs_names cs0) ->
   exists e' i', ed_autocompletion e (complete_with cs0) = Some e' /\ Rep cp e' i' /\
-    (text e', cursor e') = complete_spec (cs_names cs0 ++ [HELP_CANDIDATE]) cp (text e) (cursor e).
+    (text e', cursor e') = complete_spec (cs_names cs0 ++ [HELP_CANDIDATE]) cp (text e) (cursor e) /\
+    TabShape (cs_names cs0 ++ [HELP_CANDIDATE]) i i'.
 Proof.
   intros (Hc & Ht & Hcu & Hw & Hle & Hfit) Hnames.
   set (cs := chars i) in *. set (cu := icur i) in *.
@@ -348,6 +377,9 @@ Proof.
   rewrite HRm. clear HRm.
   assert (HRt : (R <= trail_sp cs)%nat).
   { subst R. destruct (Nat.ltb cu (length cs)); [|lia]. rewrite trailing_spaces_chars by (apply Forall_skipn, Hw). apply trail_sp_suffix. }
+  assert (Hcub : (cu <= length cs - R)%nat).
+  { subst R. destruct (Nat.ltb_spec cu (length cs)); [|lia]. rewrite trailing_spaces_chars by (apply Forall_skipn, Hw).
+    pose proof (lead_sp_le (rev (skipn cu cs))) as Hl. unfold trail_sp. rewrite rev_length, skipn_length in Hl. lia. }
   destruct (cut_k cs R HRt) as (Hcut & HRl & HRb).
   destruct (Nat.ltb_spec (length (concat cs)) R); [lia|].
   destruct (Nat.ltb_spec cp (length (concat cs) - R)); [lia|].
@@ -357,8 +389,8 @@ Proof.
   unfold request_from_input. rewrite trim_start_chars by exact Htw.
   set (wcs := skipn (lead_sp tcs) tcs). assert (Hww : Forall wf_char wcs) by (apply Forall_skipn, Htw).
   (* unchanged outcomes *)
-  assert (UNCH : exists e' i', Some e = Some e' /\ Rep cp e' i' /\ (text e', cursor e') = (concat cs, cu)).
-  { exists e, i. split; [reflexivity|]. split; [unfold Rep; fold cs cu; auto 10|]. rewrite Ht, Hcu. reflexivity. }
+  assert (UNCH : exists e' i', Some e = Some e' /\ Rep cp e' i' /\ (text e', cursor e') = (concat cs, cu) /\ TabShape names i i').
+  { exists e, i. split; [reflexivity|]. split; [unfold Rep; fold cs cu; auto 10|]. split; [rewrite Ht, Hcu; reflexivity|left; reflexivity]. }
   destruct (concat wcs) as [|wb wr] eqn:Ew; [exact UNCH|]. rewrite <- Ew. clear wb wr Ew.
   destruct (existsb (fun b => b =? 32) (concat wcs)); [exact UNCH|].
   rewrite complete_with_fold. fold names.
@@ -389,16 +421,37 @@ Proof.
   { unfold not_full. fold ech. rewrite Hlen. destruct mrest as [|n2 mr]; cbn [length Nat.leb orb andb]; [rewrite negb_involutive; reflexivity|reflexivity]. }
   rewrite Hneg.
   set (addsp := match n1 :: mrest with [_] => true | _ => false end && Nat.eqb (length ech) (length L) && Nat.ltb (length (concat tcs) + length (concat ech)) cp).
-  assert (Hres : exists newcs, (if addsp then (concat tcs ++ concat ech) ++ [32] else concat tcs ++ concat ech) = concat newcs /\ Forall wf_char newcs /\ (length (concat newcs) <= cp)%nat).
+  assert (Hech : Forall (fun c => c = [32] \/ exists n, In n names /\ incl c n) ech).
+  { assert (Hin1 : In n1 names /\ concat x1 = skipn (length w) n1).
+    { split.
+      - assert (Hn1m : In n1 matching) by (rewrite Em; left; reflexivity). unfold matching in Hn1m. apply filter_In in Hn1m. tauto.
+      - assert (Ex1 : x1 = chars_of (skipn (length w) n1)) by (unfold xs in Exs; cbn [map] in Exs; congruence).
+        rewrite Ex1. apply Hm. left. reflexivity. }
+    destruct Hin1 as [Hin1 Ecat]. apply Forall_forall. intros c Hc0. right. exists n1. split; [exact Hin1|].
+    subst ech. destruct (fit_chars_prefix room L) as [k1 Ek1]. rewrite Ek1 in Hc0. apply In_firstn in Hc0.
+    subst L. rewrite Exs in Hc0. destruct (lcp_all_prefix x1 xrest) as [k2 Ek2]. rewrite Ek2 in Hc0. apply In_firstn in Hc0.
+    intros b Hb. apply (incl_skipn (length w)). rewrite <- Ecat. eapply incl_concat_in; eauto. }
+  assert (Hres : exists newcs, (if addsp then (concat tcs ++ concat ech) ++ [32] else concat tcs ++ concat ech) = concat newcs /\ Forall wf_char newcs /\ (length (concat newcs) <= cp)%nat
+                 /\ exists A, newcs = tcs ++ A /\ Forall (fun c => c = [32] \/ exists n, In n names /\ incl c n) A).
   { destruct addsp eqn:Ea.
     - exists (tcs ++ ech ++ [[32]]). rewrite !concat_app. cbn [concat]. rewrite app_nil_r, <- !app_assoc. split; [reflexivity|].
       split; [repeat apply Forall_app_intro; auto; constructor; [cbn; lia|constructor]|].
-      subst addsp. apply andb_true_iff in Ea as [_ Ea]. apply Nat.ltb_lt in Ea. rewrite !app_length. cbn [length]. lia.
-    - exists (tcs ++ ech). rewrite concat_app. split; [reflexivity|]. split; [apply Forall_app_intro; auto|]. rewrite app_length. lia. }
-  destruct Hres as (newcs & Hn1 & Hn2 & Hn3). fold addsp.
+      split; [subst addsp; apply andb_true_iff in Ea as [_ Ea]; apply Nat.ltb_lt in Ea; rewrite !app_length; cbn [length]; lia|].
+      exists (ech ++ [[32]]). split; [reflexivity|]. apply Forall_app_intro; [exact Hech|constructor; [left; reflexivity|constructor]].
+    - exists (tcs ++ ech). rewrite concat_app. split; [reflexivity|]. split; [apply Forall_app_intro; auto|]. split; [rewrite app_length; lia|].
+      exists ech. auto. }
+  destruct Hres as (newcs & Hn1 & Hn2 & Hn3 & AA & HA1 & HA2). fold addsp.
   eexists. exists {| chars := newcs; icur := length newcs |}. split; [reflexivity|].
   cbn [text cursor cap]. fold addsp. rewrite Hn1.
-  split.
+  split; [|split].
   - unfold Rep. cbn [cap text cursor chars IdealEditor.icur]. rewrite char_count_concat by exact Hn2. repeat split; auto.
   - rewrite char_count_concat, chars_of_concat by exact Hn2. reflexivity.
+  - right. exists tcs, R, AA. cbn [chars IdealEditor.icur]. fold cs cu. split; [|split; [exact HA1|split; [reflexivity|split; [|exact HA2]]]].
+    + rewrite <- (trail_split cs R HRt). subst tcs. symmetry. apply firstn_skipn.
+    + subst tcs. rewrite firstn_length. lia.
 Qed.
+
+Theorem autocompletion_spec cp e i cs0 : Rep cp e i -> Forall valid_tok (cs_names cs0) ->
+  exists e' i', ed_autocompletion e (complete_with cs0) = Some e' /\ Rep cp e' i' /\
+    (text e', cursor e') = complete_spec (cs_names cs0 ++ [HELP_CANDIDATE]) cp (text e) (cursor e).
+Proof. intros R Hn. destruct (autocompletion_spec_shape cp e i cs0 R Hn) as (e' & i' & H1 & H2 & H3 & _). eauto. Qed.
